@@ -147,7 +147,7 @@ func runC13(w *World, r *Report) {
 			}
 		}
 		if n < 4 {
-			undecidedf("C13.key-wrappers-pass-errors-through: only %d inner calls found in the key wrappers", n)
+			r.Deferred = append(r.Deferred, fmt.Sprintf("C13.key-wrappers-pass-errors-through: only %d inner calls found in the key wrappers", n))
 		}
 	}
 
@@ -186,7 +186,7 @@ func runC13(w *World, r *Report) {
 			r.Check(bad == "", "C13.receiving-does-not-close", w.fname(origin(fn))+" closes nothing", fn.Pos(), "no call of a close method", "the receive method calls "+bad+": the reader is closed behind the consumer's back, and the consumer's own Close closes every source a second time — 'close of closed channel' in the consumer (or in the caller's goroutine when the fan-in is at END); with two failing sources the second error item is dropped")
 		}
 		if n < 4 {
-			undecidedf("C13.receiving-does-not-close: only %d receive methods found in package schema", n)
+			r.Deferred = append(r.Deferred, fmt.Sprintf("C13.receiving-does-not-close: only %d receive methods found in package schema", n))
 		}
 	}
 
